@@ -29,6 +29,8 @@ const (
 	O_TRUNC  = os.O_TRUNC
 )
 
+const ModeSymlink = os.ModeSymlink
+
 var (
 	ErrNotExist = os.ErrNotExist
 	ErrExist    = os.ErrExist
@@ -185,5 +187,23 @@ func ReadFile(name string) ([]byte, error)          { return os.ReadFile(name) }
 func Stat(name string) (FileInfo, error)            { return os.Stat(name) }
 func IsNotExist(err error) bool                     { return os.IsNotExist(err) }
 func IsExist(err error) bool                        { return os.IsExist(err) }
-func ReadDir(name string) ([]fs.DirEntry, error)    { return os.ReadDir(name) }
+// ReadDir is a scheduling point, and so is the Info call of every entry it returns: a listing reads the directory
+// first and examines the entries afterwards, other threads may rename or remove them in between.
+func ReadDir(name string) ([]fs.DirEntry, error) {
+	vrt.Point("fs-readdir", false, nil)
+	es, err := os.ReadDir(name)
+	for i := range es {
+		es[i] = dirEntry{es[i]}
+	}
+	return es, err
+}
+
+type dirEntry struct{ fs.DirEntry }
+
+func (d dirEntry) Info() (fs.FileInfo, error) {
+	vrt.Point("fs-lstat", false, nil)
+	return d.DirEntry.Info()
+}
+
+func Readlink(name string) (string, error) { return os.Readlink(name) }
 func MkdirAll(path string, perm FileMode) error     { return os.MkdirAll(path, perm) }
